@@ -932,12 +932,18 @@ class TreeTransform(Generic[TreeFnT]):
     """Returns the output_keys (assign_keys for assign) of this transform."""
     result = set()
     for fn in self.fns:
+      # A sink forwards its inputs unchanged, it does not output anything.
+      if isinstance(fn, tree_fns.Sink):
+        continue
       non_dict_keys, dict_keys = mit.partition(_is_dict, fn.output_keys)
       # Aggregate and Assign/Apply Ops are separated into different transforms.
-      # The base TreeFn means this is an Apply Op.
-      if type(fn) is tree_fns.TreeFn:  # pylint: disable=unidiomatic-typecheck
+      # The base TreeFn means this is an Apply Op. Apply and Select replace the
+      # record, only their own output keys remain afterwards.
+      if type(fn) in (tree_fns.TreeFn, tree_fns.Select):  # pylint: disable=unidiomatic-typecheck
         result = set()
       result.update(itertools.chain(non_dict_keys, *dict_keys))
+    # SKIP discards an output, it is not a key of the record.
+    result.discard(tree.Key.SKIP)
     return result
 
   @property
